@@ -76,7 +76,8 @@ def decoys():
     return _DECOYS
 
 
-PRELUDE = (("ns", "D", "ex", "A"), ("ns", "D", "q", "A"), ("bun", "B1", ("A", "b1", S("ex"))))
+# (the default namespace has the URI of `ex`: a bare name is one more spelling - one that PRINTS differently - of ex:x)
+PRELUDE = (("ns", "D", "ex", "A"), ("ns", "D", "q", "A"), ("def", "D", "A"), ("bun", "B1", ("A", "b1", S("ex"))))
 
 
 class C08(spec.Spec):
@@ -91,7 +92,7 @@ class C08(spec.Spec):
             a1, a2, g = ("A", "a1", S("ex")), ("A", "a2", S("ex")), ("A", "g", S("ex"))
             ops += [
                 ("el", scope, "entity", x), ("el", scope, "entity", xq), ("el", scope, "entity", xu),
-                ("el", scope, "entity", y), ("el", scope, "agent", x),
+                ("el", scope, "entity", y), ("el", scope, "agent", x), ("el", scope, "entity", ("A", "x", BARE)),
                 ("el", scope, "activity", x, ("t1", None)), ("el", scope, "activity", x, ("t2", None)),
                 ("el", scope, "activity", x, (None, "t1")),
                 ("rel", scope, "generation", g, (x, a1, None)), ("rel", scope, "generation", g, (x, a2, None)),
